@@ -81,6 +81,12 @@ def check_op(ctx, op, where):
                           {'b': b.brief(), 'a': a.brief(), 'factor': f[:6]})
     elif name == 'add_ase':
         x = np.broadcast_to(op['arg'], b.pch.shape)
+        if np.any(np.asarray(x, dtype=float) < 0):
+            # a noise addition is a power: a negative one takes power out of the bookkeeping (and, on a spectrum that
+            # carries no ASE yet, makes the ASE share negative)
+            ctx.violation('negative-noise-added', f'{where}: add_ase called with a negative power '
+                          f'({float(np.min(x)):.3e} W)', {'b': b.brief(), 'x': x[:6]})
+            return
         ok = close(a.pch, b.pch + x, 1e-12) and close(a.pch * a.sr, b.pch * b.sr, 1e-12, tiny) \
             and close(a.pch * a.nr, b.pch * b.nr, 1e-12, tiny) and close(a.pch * a.ar, b.pch * b.ar + x, 1e-12, tiny)
         if not ok:
@@ -88,6 +94,10 @@ def check_op(ctx, op, where):
                           'NLI power unchanged', {'b': b.brief(), 'a': a.brief(), 'x': x[:6]})
     elif name == 'add_nli':
         x = np.broadcast_to(op['arg'], b.pch.shape)
+        if np.any(np.asarray(x, dtype=float) < 0):
+            ctx.violation('negative-noise-added', f'{where}: add_nli called with a negative power '
+                          f'({float(np.min(x)):.3e} W)', {'b': b.brief(), 'x': x[:6]})
+            return
         ok = np.array_equal(a.pch, b.pch)
         # OSNR_ASE unchanged: s/a ratio preserved (cross-multiplied to stay finite when ase == 0)
         ok = ok and close(a.sr * b.ar, b.sr * a.ar, 1e-12, tiny)
